@@ -317,11 +317,15 @@ def run(pid, tier, replay=None):
                         head_abs = [a for a in rt.stored if w3.by_abs[a].hash() == run_.node.chain().current_chain_hash]
                         base = head_abs[0] if head_abs and rng.random() < 0.8 else rng.choice(rt.stored)
                         rows = rt.utxo_of(base)
-                        t = rt.valid_tx(rows, 50000 + i * 100 + k, set())
+                        sweep = rng.random() < 0.2
+                        t = rt.valid_tx(rows, 50000 + i * 100 + k, set(), sweep=sweep) or (rt.valid_tx(rows, 50000 + i * 100 + k, set()) if sweep else None)
                         if t is None:
                             continue
                         mname = ""
-                        if rng.random() < 0.35:
+                        if sweep and rng.random() < 0.7 and rt.mutate_tx(t, "sig_later", base, 0) is not None:
+                            mname = "sig_later"
+                            t = rt.mutate_tx(t, "sig_later", base, 0)
+                        elif rng.random() < 0.35:
                             mname = rng.choice(["wrongkey", "sig_outs", "overspend", "zeroout", "overmax", "dupin", "blank", "ghost", "noouts", "nullref"])
                             t2 = rt.mutate_tx(t, mname, base, 0)
                             t = t2 or t
@@ -558,6 +562,13 @@ def run(pid, tier, replay=None):
             return rc
         if pid == "C09":
             handover.stage_adversarial(chk, quick, rng, pid, cfg, keys, build_universe, lambda w_, b_: b_[7], "reward_above_subsidy_plus_fees")
+        if pid == "C12":
+            # ---- the found block sent back by a neighbour while the miner's thread is still handling it (Echo)
+            from checks import echo
+            sk.apply_cfg(cfg)
+            rc = echo.stage(chk, quick, rng, pid, cfg, keys, build_universe)
+            if rc:
+                return rc
     if pid == "C12":
         # ---- the miner's thread walks the peer book (get_active_peers) while the network thread changes it (ActivePeers): design level,
         #      then the whole found-block handling stopped before every line it executes in manager.py while a peer connects / disconnects
